@@ -1,0 +1,29 @@
+//! Verification hooks, only compiled with the `verif` feature.
+
+use std::time::{Duration, Instant};
+use stun_rs::TransactionId;
+
+/// Read-only copy of the internal state of a [`StunClient`](crate::StunClient),
+/// returned by `StunClient::verif_snapshot`. Taking a snapshot never changes
+/// the client.
+#[derive(Debug, Clone, PartialEq, Eq)]
+pub struct VerifSnapshot {
+    /// Outstanding transactions (sorted by id) and whether the instant of the
+    /// first transmission is still recorded (it is cleared on retransmission).
+    pub outstanding: Vec<(TransactionId, bool)>,
+    /// Pending timeout entries: transaction, instant at which the entry was armed
+    /// and its duration; sorted by expiry.
+    pub timeouts: Vec<(TransactionId, Instant, Duration)>,
+    /// Current retransmission timeout estimate (unreliable transport only).
+    pub rto: Option<Duration>,
+    /// Smoothed round-trip time (unreliable transport only).
+    pub srtt: Option<Duration>,
+    /// Round-trip time variation (unreliable transport only).
+    pub rttvar: Option<Duration>,
+    /// Instant of the last request sent (unreliable transport only).
+    pub last_request: Option<Instant>,
+    /// Textual description of the credential mechanism state.
+    pub credentials: String,
+    /// Transactions marked as having received a response that failed authentication.
+    pub violated: Vec<TransactionId>,
+}
